@@ -424,6 +424,41 @@ pub fn gen_programs(rec: &mut Recorder, rng: &mut StdRng, n: usize) {
     let probe: Vec<String> = vec!["f".into(), "g".into(), "h".into(), "never_defined".into()];
     let mut c = HashMapContext::<DefaultNumericTypes>::new();
     let mut fresh = true;
+    // WIDE programs first (the random ASTs below are deep rather than wide): many groups, long tuples and chains, many calls,
+    // nesting with a chain and a tuple open at every level.  A limit, a counter or a folding pass that only bites from a
+    // certain size on shows here; the values are the specification's, like everything else in the trace.
+    {
+        let size = 60 + rng.gen_range(0..30);
+        let mut wide: Vec<String> = Vec::new();
+        wide.push((0..size).map(|_| "(1)".to_string()).collect::<Vec<_>>().join(" + "));
+        wide.push(format!("({})", (0..size).map(|i| (i % 7).to_string()).collect::<Vec<_>>().join(", ")));
+        wide.push(format!("({}, (8, 9), , \"s\")", (1..9).map(|i| i.to_string()).collect::<Vec<_>>().join(", ")));
+        wide.push((0..size).map(|i| format!("x = {}", i % 5)).collect::<Vec<_>>().join("; ") + "; x");
+        wide.push((0..size / 2).map(|i| format!("f({})", i % 3)).collect::<Vec<_>>().join(" + "));
+        let depth = 20 + rng.gen_range(0..10);
+        wide.push(format!("{}1{}", "(".repeat(depth), ")".repeat(depth)));
+        wide.push(format!("{}1{}", "f(".repeat(depth), ")".repeat(depth)));
+        wide.push(format!("{}7{}", "0; 1, (".repeat(depth), ")".repeat(depth)));
+        wide.push(format!("{}7{}", "-(".repeat(depth), ")".repeat(depth)));
+        c = HashMapContext::new();
+        for (n, b, v) in &behaviours {
+            c.set_function(n.clone(), make_function(n, b, Some(v.clone()), &log)).unwrap();
+        }
+        rec.emit(json!({"ev": "ctx", "slot": 0, "ctx": ctx_json(&[], &behaviours, false)}));
+        for src in wide {
+            log.lock().unwrap().clear();
+            let tree = guard(|| build_operator_tree::<DefaultNumericTypes>(&src));
+            let r = guard(|| eval_with_context_mut(&src, &mut c));
+            let calls: Vec<(String, V)> = log.lock().unwrap().clone();
+            let post = project_hashmap(&c, &probe, &log).unwrap_or_else(|e| json!({"error": e}));
+            let mut ev = json!({"ev": "eval", "slot": 0, "src": cps(&src), "level": "string", "ek": "value", "mode": "mut",
+                                "res": res_json(&r), "post": post, "log": log_json(&calls)});
+            if let Ok(Ok(t)) = &tree {
+                ev["tree"] = enc_tree(&normalise(t));
+            }
+            rec.emit(ev);
+        }
+    }
     for k in 0..n {
         if fresh || k % 25 == 0 {
             c = HashMapContext::new();
@@ -1074,6 +1109,74 @@ pub fn gen_literals(rec: &mut Recorder, rng: &mut StdRng, n: usize) {
 // generator "macros": the context_map! and math_consts_context! macros (fixed invocations; the macro arguments are
 // compile-time, so the entries are written out next to each invocation)
 // ------------------------------------------------------------------------------------------------
+// ------------------------------------------------------------------------------------------------
+// generator "bigctx": one context with MANY variables and functions (capacity thresholds, rehashing), the switch, the clears
+// ------------------------------------------------------------------------------------------------
+pub fn gen_bigctx(rec: &mut Recorder, rng: &mut StdRng, _n: usize) {
+    let log: Log = Default::default();
+    let size = 70 + rng.gen_range(0..40);
+    let vnames: Vec<String> = (0..size).map(|i| format!("b{i}")).collect();
+    let fnames: Vec<String> = (0..size).map(|i| format!("p{i}")).chain(["max".to_string(), "len".to_string()]).collect();
+    let probe: Vec<String> = fnames.iter().cloned().chain(std::iter::once("never_defined".to_string())).collect();
+    let project = |c: &HashMapContext<DefaultNumericTypes>, log: &Log| project_hashmap(c, &probe, log).unwrap_or_else(|e| json!({"error": e}));
+    for round in 0..3 {
+        let mut c = HashMapContext::<DefaultNumericTypes>::new();
+        rec.emit(json!({"ev": "ctx", "slot": 0, "ctx": ctx_json(&[], &[], false)}));
+        for (i, name) in vnames.iter().enumerate() {
+            let v = match i % 4 {
+                0 => Value::Int(i as i64),
+                1 => Value::String(format!("s{i}")),
+                2 => Value::Boolean(i % 8 == 2),
+                _ => Value::Tuple(vec![Value::Int(i as i64), Value::Empty]),
+            };
+            let r = guard(|| c.set_value(name.clone(), v.clone()).map(|_| Value::Empty));
+            rec.emit(json!({"ev": "set_value", "slot": 0, "n": cps(name), "v": enc_value(&v), "res": res_json(&r), "post": project(&c, &log)}));
+        }
+        for (i, f) in fnames.iter().enumerate() {
+            let (b, v) = if i % 2 == 0 { ("id", Value::Empty) } else { ("const", Value::Int(i as i64)) };
+            c.set_function(f.clone(), make_function(f, b, Some(v.clone()), &log)).unwrap();
+            rec.emit(json!({"ev": "set_function", "slot": 0, "n": cps(f), "b": b, "v": enc_value(&v), "post": project(&c, &log)}));
+        }
+        let mut eval = |rec: &mut Recorder, c: &mut HashMapContext<DefaultNumericTypes>, src: &str| {
+            log.lock().unwrap().clear();
+            let r = guard(|| eval_with_context_mut(src, c));
+            let calls: Vec<(String, V)> = log.lock().unwrap().clone();
+            rec.emit(json!({"ev": "eval", "slot": 0, "src": cps(src), "level": "string", "ek": "value", "mode": "mut",
+                            "res": res_json(&r), "post": project(c, &log), "log": log_json(&calls)}));
+        };
+        let d = round != 1;
+        let r = guard(|| c.set_builtin_functions_disabled(d).map(|_| Value::Empty));
+        rec.emit(json!({"ev": "set_builtins", "slot": 0, "d": d, "res": res_json(&r), "post": project(&c, &log)}));
+        eval(rec, &mut c, "max(1, 3), len(\"ab\"), min(4, 2)");
+        eval(rec, &mut c, &format!("{} + {}", vnames[0], vnames[size - 4]));
+        match round {
+            0 => {
+                c.clear();
+                rec.emit(json!({"ev": "clear", "slot": 0, "post": project(&c, &log)}));
+            },
+            1 => {
+                c.clear_functions();
+                rec.emit(json!({"ev": "clear_functions", "slot": 0, "post": project(&c, &log)}));
+                c.clear_variables();
+                rec.emit(json!({"ev": "clear_variables", "slot": 0, "post": project(&c, &log)}));
+            },
+            _ => {
+                c.clear_variables();
+                rec.emit(json!({"ev": "clear_variables", "slot": 0, "post": project(&c, &log)}));
+                let c2 = c.clone();
+                rec.emit(json!({"ev": "clone", "slot": 0, "to": 1, "post": project(&c2, &log)}));
+                c.clear_functions();
+                rec.emit(json!({"ev": "clear_functions", "slot": 0, "post": project(&c, &log)}));
+            },
+        }
+        // what the switch is now, whether the builtins and the user functions resolve, whether a variable is gone
+        eval(rec, &mut c, "max(1, 3), len(\"ab\")");
+        eval(rec, &mut c, "min(4, 2)");
+        eval(rec, &mut c, &vnames[1].clone());
+        eval(rec, &mut c, "p3(5)");
+    }
+}
+
 pub fn gen_macros(rec: &mut Recorder, _rng: &mut StdRng, _n: usize) {
     let log: Log = Default::default();
     let probe: Vec<String> = vec!["f".into(), "g".into(), "x".into(), "never_defined".into()];
